@@ -638,6 +638,33 @@ pub fn lint_guarded(prog: &Program, which: LintWhich) -> Result<Vec<DiagRec>, Pa
     r
 }
 
+/// A `Linter` value that is kept and used for one program after another (the API allows it: `Linter::run`
+/// takes `&mut self`). What it reports for a program must be what a fresh linter reports.
+pub struct ReusedLinter(rrss::linter::Linter);
+
+impl ReusedLinter {
+    pub fn new() -> Self {
+        ReusedLinter(rrss::linter::standard_linter())
+    }
+    pub fn run(&mut self, prog: &Program) -> Result<Vec<DiagRec>, PanicInfo> {
+        set_trap(true);
+        let l = &mut self.0;
+        let r = guarded(|| {
+            l.run(prog)
+                .diags
+                .into_iter()
+                .map(|d| DiagRec { line: d.line, issue: d.issue, suggestions: d.suggestions })
+                .collect::<Vec<_>>()
+        });
+        rrss::verif::set_trap(false);
+        if r.is_err() {
+            // a linter that panicked is not used again
+            self.0 = rrss::linter::standard_linter();
+        }
+        r
+    }
+}
+
 #[derive(Clone, Copy, Debug, PartialEq, Eq)]
 pub enum LintWhich {
     Standard,
